@@ -130,51 +130,80 @@ def random_cases(ctx, n):
     check_cases(ctx, cases, "Merge.merge~tree._merge (random, 11 keys)")
 
 
-def stored_merge(ctx, n):
-    """real `merge()` through stored trees: result oid must be the canonical digest of the listing"""
+def _store(odb, d):
+    from dvc_data.hashfile.tree import Tree
+
+    tr = Tree()
+    for k, v in d.items():
+        tr.add(k, None, v[1] if isinstance(v, tuple) else v)
+    tr.digest()
+    odb.add(tr.path, tr.fs, tr.oid)
+    return tr
+
+
+def stored_case(ctx, odb, base, od, td, al):
+    """real `merge()` through stored trees: three-way result, canonical oid, object bytes"""
+    from dvc_data.hashfile.tree import MergeError, merge
+
+    a, o, t = _store(odb, base), _store(odb, od), _store(odb, td)
+    case = {"stored": True, "a": _pairs(a.as_dict()), "o": _pairs(o.as_dict()), "t": _pairs(t.as_dict()), "allowed": al}
+    kind, res = safe_call(lambda: merge(odb, a.hash_info, o.hash_info, t.hash_info, allowed=al or None), expected=(MergeError,))
+    ctx.case(case)
+    if kind == "ok":
+        d = res.as_dict()
+        exp, conflicts = three_way(a.as_dict(), o.as_dict(), t.as_dict())
+        lst = sorted(({"md5": v[1].value, "relpath": "/".join(k)} for k, v in d.items()), key=lambda e: e["relpath"])
+        body = json.dumps(lst, sort_keys=True).encode()
+        oid = hashlib.md5(body).hexdigest() + ".dir"
+        k2, stored_bytes = safe_call(lambda: res.fs.cat_file(res.path))
+        ctx.oracle(
+            not conflicts and _canon(exp) == _canon(d) and res.oid == oid and res.hash_info.value == oid and stored_bytes == body,
+            case,
+            {"impl_oid": res.oid, "canonical_oid": oid, "impl": _canon(d), "three_way": _canon(exp),
+             "object_bytes_match_listing": stored_bytes == body},
+        )
+        ctx.count("stored:ok")
+    else:
+        ctx.oracle(res == "MergeError", case, {"impl": res, "why": "unexpected exception"})
+        ctx.count("stored:" + res)
+
+
+def _new_odb(ctx):
     import os
 
     from dvc_objects.fs.local import LocalFileSystem
 
     from dvc_data.hashfile.db import HashFileDB
+
+    return HashFileDB(LocalFileSystem(), os.path.join(ctx.mkdtemp(), "odb"))
+
+
+def stored_merge(ctx, n):
     from dvc_data.hashfile.hash_info import HashInfo
-    from dvc_data.hashfile.tree import MergeError, Tree, merge
 
     rng = ctx.rng
-    fs = LocalFileSystem()
-    root = ctx.mkdtemp()
-    odb = HashFileDB(fs, os.path.join(root, "odb"))
-    keys = [("a",), ("b",), ("d", "c"), ("d", "e", "f"), ("é x",)]
+    odb = _new_odb(ctx)
+    keys = [("a",), ("b",), ("d", "c"), ("d", "e", "f"), ("\u00e9 x",)]
 
-    def mk():
-        tr = Tree()
+    def rv():
+        return HashInfo("md5", hashlib.md5(rng.choice(["1", "2", "3", "4"]).encode()).hexdigest())
+
+    def derive(base):
+        d = dict(base)
         for k in keys:
-            if rng.random() < 0.6:
-                tr.add(k, None, HashInfo("md5", hashlib.md5(rng.choice(["1", "2", "3"]).encode()).hexdigest()))
-        tr.digest()
-        odb.add(tr.path, tr.fs, tr.oid)
-        return tr
+            r = rng.random()
+            if k in d:
+                if r < 0.25:
+                    d[k] = rv()  # change
+                elif r < 0.32:
+                    del d[k]  # remove
+            elif r < 0.15:
+                d[k] = rv()  # add
+        return d
 
     for _ in range(n):
-        a, o, t = mk(), mk(), mk()
-        al = rng.choice(POLICIES)
-        case = {"stored": True, "a": _pairs(a.as_dict()), "o": _pairs(o.as_dict()), "t": _pairs(t.as_dict()), "allowed": al}
-        kind, val = safe_call(lambda: merge(odb, a.hash_info, o.hash_info, t.hash_info, allowed=al or None), expected=(MergeError,))
-        ctx.case(case)
-        if kind == "ok":
-            d = val.as_dict()
-            exp, conflicts = three_way(a.as_dict(), o.as_dict(), t.as_dict())
-            lst = sorted(({"md5": v[1].value, "relpath": "/".join(k)} for k, v in d.items()), key=lambda e: e["relpath"])
-            oid = hashlib.md5(json.dumps(lst, sort_keys=True).encode()).hexdigest() + ".dir"
-            ctx.oracle(
-                not conflicts and _canon(exp) == _canon(d) and val.oid == oid,
-                case,
-                {"impl_oid": val.oid, "canonical_oid": oid, "impl": _canon(d), "three_way": _canon(exp)},
-            )
-            ctx.count("stored:ok")
-        else:
-            ctx.oracle(val == "MergeError", case, {"impl": val, "why": "unexpected exception"})
-            ctx.count("stored:" + val)
+        base = {k: rv() for k in keys if rng.random() < 0.7}
+        stored_case(ctx, odb, base, derive(base), derive(base), rng.choice(POLICIES))
 
 
 def run(ctx):
@@ -207,4 +236,7 @@ def replay(ctx, payload):
     def d(p):
         return {tuple(k.split("/")): (None, HashInfo("md5", v)) for k, v in p}
 
-    check_cases(ctx, [(d(c["a"]), d(c["o"]), d(c["t"]), c["allowed"])], "replay")
+    if c.get("stored"):
+        stored_case(ctx, _new_odb(ctx), d(c["a"]), d(c["o"]), d(c["t"]), c["allowed"])
+    else:
+        check_cases(ctx, [(d(c["a"]), d(c["o"]), d(c["t"]), c["allowed"])], "replay")
